@@ -316,11 +316,11 @@ FUNCTIONS['RAND'] = {
 def xrandbetween(bottom, top):
     if isinstance(bottom, bool) or isinstance(top, bool):
         return Error.errors['#VALUE!']
-    dx = top - bottom
-    if dx < 0:
+    bottom, top = math.ceil(bottom), math.floor(top)
+    if top < bottom:
         return Error.errors['#NUM!']
-
-    return bottom + dx * np.random.rand()
+    n = top - bottom + 1
+    return bottom + min(int(np.random.rand() * n), n - 1)
 
 
 FUNCTIONS['RANDBETWEEN'] = wrap_ufunc(
